@@ -321,9 +321,20 @@ def main(argv=None):
         if nproc <= 1:
             results = [_shard_entry(j) for j in jobs]
         else:
+            # ProcessPoolExecutor: a worker that is killed (OOM) surfaces as BrokenProcessPool instead of a hang
+            from concurrent.futures import ProcessPoolExecutor
+            from concurrent.futures.process import BrokenProcessPool
             mpctx = mp.get_context("spawn")
-            with mpctx.Pool(nproc, maxtasksperchild=1) as pool:
-                results = pool.map(_shard_entry, jobs, chunksize=1)
+            results = [None] * len(jobs)
+            with ProcessPoolExecutor(max_workers=nproc, mp_context=mpctx, max_tasks_per_child=1) as ex:
+                futs = {ex.submit(_shard_entry, j): i for i, j in enumerate(jobs)}
+                for fut, i in futs.items():
+                    try:
+                        results[i] = fut.result()
+                    except BrokenProcessPool as e:
+                        results[i] = {"shard": i, "harness_error": "worker process died: %s" % e}
+                    except BaseException as e:  # noqa
+                        results[i] = {"shard": i, "harness_error": "%s: %s" % (e.__class__.__name__, e)}
 
     evaluations = 0
     nontrivial = set()
